@@ -26,7 +26,7 @@ Regimes ==
   {[cls |-> "DistGeometric", reg |-> r] : r \in {"phalf", "psmall", "p0", "p1", "p_neg", "p_gt1"}} \cup
   {[cls |-> "DistNegBinomial", reg |-> r] : r \in {"phalf", "p0", "p1", "s_zero", "p_gt1"}} \cup
   {[cls |-> "DistNormal", reg |-> r] : r \in {"std", "shifted", "sigma_zero", "sigma_neg"}} \cup
-  {[cls |-> "DistNormalTrunc", reg |-> r] : r \in {"two_sided", "lower_only", "upper_only", "far_tail", "hi_le_lo", "sigma_zero", "negligible"}} \cup
+  {[cls |-> "DistNormalTrunc", reg |-> r] : r \in {"two_sided", "lower_only", "upper_only", "far_tail", "lo_zero", "hi_zero", "wide_ratio", "hi_le_lo", "sigma_zero", "negligible"}} \cup
   {[cls |-> "DistLogNormal", reg |-> r] : r \in {"std", "shifted", "sigma_zero"}} \cup
   {[cls |-> "DistPearson5", reg |-> r] : r \in {"lt1", "gt1", "alpha_zero", "beta_neg"}} \cup
   {[cls |-> "DistPearson6", reg |-> r] : r \in {"lt1", "gt1", "mixed", "alpha1_zero", "beta_zero"}} \cup
